@@ -109,8 +109,10 @@ def arrayElemTypes : List (Nat × Nat) :=
    (629, 628), (651, 650), (719, 718), (775, 774), (791, 790),
    (3905, 3904), (3907, 3906), (3909, 3908), (3911, 3910), (3913, 3912), (3927, 3926)]
 
-/-- types.go:fixedLengths -/
+/-- types.go:fixedLengths.  The entry for `name` (19 ↦ 64, added by the repair of `name[]` in area
+`arrays`) is taken from the generated tables: it is probed on the real code -/
 def fixedLengths : List (Nat × Nat) :=
+  (if Generated.Scalars.nameFixed64 then [(19, 64)] else []) ++
   [(16, 1), (18, 1), (21, 2), (23, 4), (20, 8), (26, 4), (700, 4), (701, 8), (1082, 4), (1114, 8),
    (1184, 8), (27, 6), (28, 4), (29, 4), (790, 8), (1083, 8), (829, 6), (774, 8), (2950, 16),
    (3220, 8), (600, 16), (601, 32), (603, 32), (628, 24), (718, 24), (1266, 12), (1186, 16)]
